@@ -120,6 +120,15 @@ pub fn exec(ops: &[Op], with_counts: bool) -> Vec<Obs> {
             Op::Add { id, c } => {
                 let r = on!(p, guard(|| p.add_tile(*id, c.clone())), guard(|| p.add_tile(*id, c.clone())), Ok(Ok(())));
                 o.res = res_tag(&r);
+                if c.is_empty() {
+                    // a refused add must change nothing: observe the count and the tile it was aimed at
+                    o.n = on!(p, p.num_tiles() as u64, p.num_tiles() as u64, 0);
+                    let g = on!(p, guard(|| p.get_tile_by_id(*id)), guard(|| block_on(p.get_tile_by_id_async(*id))), Ok(Ok(None)));
+                    o.ids = vec![match tag_opt(&g) { "some" => 1, "none" => 0, _ => 2 }];
+                    if let Ok(Ok(Some(b))) = g {
+                        o.content = Some(b);
+                    }
+                }
             }
             Op::Bulk(ts) => {
                 for (id, c) in ts {
@@ -238,6 +247,11 @@ impl Emitter {
                     let mut e = json!({"ev": "Add", "id": limbs(*id), "tok": if c.is_empty() {0} else {self.toks.tok(c)}, "len": c.len(), "res": o.res});
                     if let Some(cn) = o.counts {
                         e["counts"] = json!(cn.to_vec());
+                    }
+                    if c.is_empty() {
+                        e["after_n"] = json!(o.n);
+                        e["after_res"] = json!(["none", "some", "err"][o.ids.first().copied().unwrap_or(2) as usize]);
+                        e["after_tok"] = json!(o.content.as_ref().map_or(0, |b| self.toks.tok(b)));
                     }
                     e
                 }
